@@ -286,6 +286,34 @@ pub fn run(ctx: &Ctx, st: &mut Stats, round: bool) {
             }
         }
     });
+    let np = ctx.tier.pick(300, 1_000_000, 10_000_000);
+    ctx.par(st, "history: other operations on related dates (primers), then the judged case; also A,A", false, 0, np, |st, i, rng| {
+        let u = *rng.pick(&UNITS);
+        let ty = *rng.pick(&[TyK::Date, TyK::Ts, TyK::Ora]);
+        // the judged date: anywhere, or in a boundary region (turn of the year, turn of a month, mid-month)
+        let y = rng.range_i64(1, 9999);
+        let n = match rng.below(5) {
+            0 => rng.range_i64(MIN_DAY as i64, MAX_DAY as i64),
+            1 => crate::cal::days_from_civil(y, 1, 1) + rng.range_i64(-3, 20),
+            2 => crate::cal::days_from_civil(y, 1 + rng.below(12) as i64, 1) + rng.range_i64(-3, 10),
+            3 => crate::cal::days_from_civil(y, 1 + rng.below(12) as i64, 15) + rng.range_i64(-2, 3),
+            _ => crate::cal::days_from_civil(y, 12, 14) + rng.range_i64(0, 17),
+        }
+        .clamp(MIN_DAY as i64, MAX_DAY as i64);
+        let tod = match ty {
+            TyK::Date => 0,
+            TyK::Ts => if rng.chance(1, 2) { rng.range_i64(0, DAY_US - 1) } else { *rng.pick(&[0i64, 43_200_000_000, 43_199_999_999, DAY_US - 1]) },
+            TyK::Ora => rng.range_i64(0, 86_399) * 1_000_000,
+        };
+        let c = one(round, u, ty, n, tod);
+        let h = mix(mix(n as u64, tod as u64), mix(u as u64 * 4 + ty as u64, i as u64));
+        if i % 8 == 0 {
+            st.eval_hist(mix(h, 0xAA), vec![c, c], check);
+        } else {
+            let pr = crate::primers::gen_some(rng, &[n], tod, &[u as i64 * 2, u as i64 * 2 + 1]);
+            st.eval_primed(h, pr, c, check);
+        }
+    });
     cold_threads(st, "history: first call on a fresh thread", cold_list(round), check);
     if round {
         // bridge the excluded century-end years: last day of year ..99 against first day of year ..01
